@@ -140,7 +140,7 @@ func cmdCheck(args []string) int {
 			os.RemoveAll(smtDir)
 		}
 	}()
-	timeout := 40
+	timeout := 60
 	needTwo := false
 	fnames := append([]string{}, cfg.Functions...)
 	lemmas := append([]string{}, cfg.Lemmas...)
